@@ -688,7 +688,27 @@ def m_vec_reserve(I, st, args, c, dest, target, span):
 
 @model("core::slice::<impl [T]>::iter", "core::slice::<impl [T]>::iter_mut")
 def m_slice_iter(I, st, args, c, dest, target, span):
+    if is_nodes_vec(I, st, args[0]):
+        return VOpaque("nodes-iter", "mut" if "iter_mut" in c.get("path", "") else "shared")        # a fresh cursor at slot 0 of the node vector
     return VOpaque("slice-iter")
+
+
+@model("<core::slice::iter::Iter<'a, T> as core::iter::traits::iterator::Iterator>::nth", "<core::slice::iter::IterMut<'a, T> as core::iter::traits::iterator::Iterator>::nth")
+def m_slice_iter_nth(I, st, args, c, dest, target, span):
+    """`nodes.iter().nth(i)` on a cursor that has not been advanced is `nodes.get(i)`; the cursor is used up afterwards (any later use is undecided)."""
+    r = I.force(st, args[0])
+    it = I.force(st, I.load(st, r.root, r.path)) if isinstance(r, VRef) else r
+    if not (isinstance(it, VOpaque) and it.tag == "nodes-iter"):
+        raise Undecided("nth on an iterator other than a fresh cursor over arena.nodes")
+    i = I.force(st, args[1])
+    if not isinstance(i, VInt):
+        raise Undecided("nth by %r" % (i,))
+    if isinstance(r, VRef):
+        I.store(st, r.root, r.path, VOpaque("nodes-iter-advanced"), span)
+    n = slot_of_index(I, st, i.t)
+    if n is None:
+        return none()
+    return some(VRef(("node", n), (), it.id == "mut"))
 
 
 # ------------------------------------------------------------------ free list materialisation
